@@ -138,7 +138,7 @@ Proof.
     + apply S4. + apply S4.
   - cbn [heap_of set_heap mk]. eapply TblInv_same_tables; [|exact Htbl].
     apply same_tables_setb with (b := b); auto.
-  - destruct Hcnt as [C1 C2 C3 C4 C5]. split; cbn [heap_of set_heap mk log].
+  - destruct Hcnt as [C1 C2 C3 C4 C5 C6]. split; cbn [heap_of set_heap mk log].
     + intros y by' m Hy Hm. rewrite Hnth in Hy. pose proof (HW (sw_strong y)) as HWy.
       destruct (Nat.eqb_spec o y) as [<-|Hne].
       * injection Hy as <-. cbn [b' strong with_strong] in Hm. injection Hm as <-.
@@ -163,6 +163,8 @@ Proof.
       pose proof (HW (sw_strong y)) as H1. pose proof (HW (sw_weak y)) as H2.
       rewrite n_after_cons in E3. rewrite n_fin_cons in E4. cbn [f_after f_fin] in E3, E4.
       repeat split; try lia; assumption.
+    + intros y by' Hy Hp. rewrite Hnth in Hy. destruct (Nat.eqb_spec o y) as [<-|Hne]; [|apply (C6 y by' Hy Hp)].
+      pose proof (C6 o b Hb Hp) as E. congruence.
   - intros y Hy. rewrite Hheld in Hy. cbn [heap_of set_heap mk]. rewrite Hnth.
     destruct (Hnd y Hy) as (by_ & Hby & Hl). destruct (Nat.eqb_spec o y) as [<-|Hne].
     + exists b'. auto.
